@@ -21,7 +21,7 @@ from vf.common import Check, main_wrapper, run_shards
 
 from simpletal import simpleTAL, simpleTALES  # noqa: E402
 
-CASES = {"quick": 4000, "thorough": 50000}     # thorough: per shard, 16 shards
+CASES = {"quick": 4000, "thorough": 80000}     # thorough: per shard, 16 shards
 RISKY_KEYS = {
     "text-keyword": "C17/content-text-keyword",
     "exists-alt-unstripped": "C17/exists-nocall-alternation-first-path-unstripped",
@@ -144,12 +144,14 @@ def expand_ref(lib, page, schema, which: str = "page") -> str:
     return tpls[which].expand(globs)
 
 
-def compare(lib, page, schema, which: str):
-    """-> None (agree) | 'abstain' | dict describing the disagreement."""
+def compare(lib, page, schema, which: str, ref_out: list = None):
+    """-> None (agree) | 'abstain:...' | dict describing the disagreement."""
     try:
         want = expand_ref(lib, page, schema, which)
     except talref.Abstain as e:
         return "abstain:%s" % e
+    if ref_out is not None:
+        ref_out.append(want)
     try:
         got = expand_real(lib, page, schema, which)
     except Exception as e:  # the real code raised where the reference has an answer
@@ -175,7 +177,8 @@ def run_case(chk: Check, mon: Monitors, seed: int, i: int) -> None:
     written = [talref.variants(t)[0] if t is not None else None for t in (lib, page)]
     safe = [talref.variants(t)[1] if t is not None else None for t in (lib, page)]
     mon.current = {"case": i, "case_seed": seed}
-    res = compare(written[0], written[1], schema, which)
+    ref_out: list = []
+    res = compare(written[0], written[1], schema, which, ref_out)
     detail = {"case": i, "case_seed": seed, "expanded": which, "lib": written[0], "page": written[1],
               "context": schema.vals, "result": res}
     if isinstance(res, str):
@@ -194,8 +197,7 @@ def run_case(chk: Check, mon: Monitors, seed: int, i: int) -> None:
         chk.count("risky_construct_cases")
     cmds = sorted({c for s in gen.subsets for c in s} | {u for u in gen.used if u in (
         "use-macro", "define-slot", "fill-slot", "define-macro")})
-    n_el = sum(1 for e in talref.events(expand_ref(safe[0], safe[1], schema, which)) if e[0] == "S") \
-        if res is None else -1
+    n_el = sum(1 for e in talref.events(ref_out[0]) if e[0] == "S") if res is None else -1
     klass = "differs" if res is not None else "no-elements" if n_el == 0 else "1-9 elements" if n_el < 10 \
         else "10+ elements"
     chk.case((tuple(cmds), gen.depth_seen, klass),
